@@ -82,7 +82,14 @@ def run_once(ast, mode, fin, strict, limit=20):
 def run(ctx):
     rng = ctx.rng
     from props import funcs_common as FCm
+    from props.c05 import grammar_programs
     files = list(CORPUS) + FCm.failure_patterns(1 if ctx.tier == 'thorough' else 5)
+    # every expression of the bounded grammar (all operators, subscripts, dereferences, calls, casts, nested) as a
+    # statement, a right-hand side, a condition and a returned value: the syntax report must cope with all of them
+    gp = grammar_programs(ctx.tier == 'thorough')
+    files += gp if ctx.tier != 'thorough' else gp[::3]
+    files += ['int f(int i,int j){ return (*m)[i][j]; }', 'int f(int i){ return (*v).a[i]; }', 'int f(int i,int j){ (p + 1)[i][j]; }',
+              'int f(int i,int x){ return (*fp)(x)[i]; }', 'int f(int i){ while (i) ((int*)q)[i][i]; }']
     for i in range(ctx.budget(70, 2500)):
         nf = rng.choice([1, 1, 2, 3])
         parts = []
